@@ -52,7 +52,7 @@ Proof.
 Qed.
 
 Definition pw (s : pool) := (wlist s, itab s).
-Definition event_is_tick (e : event) : bool := match e with ETick => true | _ => false end.
+Definition event_is_tick (e : event) : bool := match e with ETick | ETickClose _ => true | _ => false end.
 
 Lemma pw_deliver s p sg l : pw (deliver s p sg l) = pw s.
 Proof. unfold pw. rewrite itab_deliver. reflexivity. Qed.
@@ -72,9 +72,9 @@ Proof.
     rewrite pw_deliver. reflexivity.
 Qed.
 
-Lemma pw_step s e : e <> ETick -> pw (fst (step s e)) = pw s.
+Lemma pw_step s e : e <> ETick -> (forall k, e <> ETickClose k) -> pw (fst (step s e)) = pw s.
 Proof.
-  intros Hne. destruct e; try congruence; unfold step; cbn [fst]; try reflexivity.
+  intros Hne Hnk. destruct e; try congruence; try (exfalso; eapply Hnk; reflexivity); unfold step; cbn [fst]; try reflexivity.
   - unfold do_apply.
     destruct (negb (pstate (with_sigs s []) =? 0)); [reflexivity|].
     destruct ((match slot with Some b => b | None => putlocks (with_sigs s []) end) && (LaxSem.value (sem (with_sigs s [])) =? 0)); [reflexivity|]. cbn [fst].
@@ -131,7 +131,7 @@ Proof.
       { rewrite pw_deliver. unfold pw. cbn [wlist set_proc]. rewrite itab_set_proc by (intros; reflexivity). reflexivity. }
       destruct (n0 - 1 <=? i); cbn [fst]; [exact Ha|rewrite IH; exact Ha]. }
     rewrite Hsl. reflexivity.
-  - destruct (pstate _ =? 0); reflexivity.
+  - unfold do_close. destruct (pstate _ =? 0); reflexivity.
   - unfold do_next. destruct (get_job _ j) as [x|]; [|reflexivity].
     destruct (negb (is_imap x)); [reflexivity|].
     destruct (items x); [destruct (okey_eqb _ _)|]; reflexivity.
@@ -219,13 +219,32 @@ Proof.
   destruct r; cbn [fst]; exact Hr.
 Qed.
 
+Lemma WInv_tick_close s k : WInv s -> WInv (fst (do_tick_close s k)).
+Proof.
+  intros Hw0. pose proof (WInv_tick s Hw0) as Ht. destruct Hw0 as [H1 H2]. unfold do_tick_close.
+  destruct (join_exited_shape s) as (Hw & Hn & Hps).
+  assert (Hp : procs (fst (join_exited s)) = procs s).
+  { unfold join_exited. destruct (filter _ (rev _)); reflexivity. }
+  destruct (join_exited s) as [s1 codes]. cbn [fst] in *.
+  destruct (Z.to_nat (nprocs s1 - Z.of_nat (length (wlist s1))) <=? k)%nat; [exact Ht|].
+  assert (Hw1 : WInv s1).
+  { unfold WInv, itab. rewrite Hw, Hp. split.
+    - unfold kept. apply NoDup_map_filter. exact H1.
+    - intros p Hin. unfold kept in Hin. apply filter_In in Hin. apply H2. tauto. }
+  pose proof (WInv_repopulate (S k) 0 codes s1 Hw1) as Hr.
+  destruct (repopulate (S k) 0 codes s1) as [s2 r]. cbn [fst] in Hr.
+  destruct r; cbn [fst]; try exact Hr.
+  unfold release_n, do_close. destruct (pstate s2 =? 0); exact Hr.
+Qed.
+
 Theorem WInv_step s e : WInv s -> WInv (fst (step s e)).
 Proof.
   intros Hw. destruct (event_is_tick e) eqn:E.
-  - destruct e; try discriminate. unfold step. cbn [fst].
-    apply WInv_tick. exact Hw.
+  - destruct e; try discriminate; unfold step; cbn [fst].
+    + apply WInv_tick. exact Hw.
+    + apply WInv_tick_close. exact Hw.
   - apply (WInv_pw s); [apply pw_step|apply only_tick_starts_workers|exact Hw];
-      intros ->; discriminate.
+      try (intros ->; discriminate); intros k0 ->; discriminate.
 Qed.
 
 Lemma WInv_init c : 0 <= c_n c -> WInv (init c).
